@@ -680,10 +680,7 @@ func spaces(tier string) []kit.Space {
 		add(p, paraCore, coreN-1, ".core")
 	}
 	for _, p := range append(append([]placement{}, placements[:6]...), containerPlacements...) {
-		wsN := coreN + 1 // 5: four leading spaces and a letter, "a  \nb"
-		if tier == "thorough" {
-			wsN = coreN + 2
-		}
+		wsN := coreN + 1 // quick 5: four leading spaces and a letter, "a  \nb"; thorough 6
 		add(p, wsAlphabet, wsN, ".ws")
 	}
 	for _, p := range placements {
@@ -701,7 +698,7 @@ func main() {
 		ID:    "C26",
 		Level: "model_checking",
 		Rule: "every string up to the tier's length over 30 characters (all arms of markdownEscape's switch + unescaped punctuation + tab/space/newline + a,1,h) shown at 6 paragraph placements and 6 indented-code placements, and (reduced alphabet, one symbol less) at 18 placements after 0-2 inline HTML tags in documents that begin with an indented code block or have it after a paragraph, plus one/two more symbols of depth over reduced alphabets (\".core\" spaces); " +
-			"Round 2: the reduced alphabet and a letters-digits-white-space alphabet (to length 5/7) at 9 positions inside list items, block quotes, a second paragraph line and headings; 'layouts' = every sequence of up to 2/3 of 13 line kinds followed by a hole line with one of 12 prefixes, as a document and as a macro body, 6 probe values each, goldmark deciding whether the hole is code or text and the lexer's context read from the tree; 'twin' spaces = macros with string result, macros imported from a .txt file, a rendered .txt file and string(M(s)) at 9 positions against a plain {{ s }} in the same document; the same shows through writers without WriteString (a late-copying writer and a pipe with a slow reader), 8 goroutines at a time; a file rendered in a URL and then in a paragraph; a Markdown macro called from an HTML file through a converter; values of type native.HTML. " +
+			"Round 2: the reduced alphabet and a letters-digits-white-space alphabet (to length 5/6) at 9 positions inside list items, block quotes, a second paragraph line and headings; 'layouts' = every sequence of up to 2/3 of 13 line kinds followed by a hole line with one of 12 prefixes, as a document and as a macro body, 6 probe values each, goldmark deciding whether the hole is code or text and the lexer's context read from the tree; 'twin' spaces = macros with string result, macros imported from a .txt file, a rendered .txt file and string(M(s)) at 9 positions against a plain {{ s }} in the same document; the same shows through writers without WriteString (a late-copying writer and a pipe with a slow reader), 8 goroutines at a time; a file rendered in a URL and then in a paragraph; a Markdown macro called from an HTML file through a converter; values of type native.HTML. " +
 			"non-trivial = the escaper changed the string or the string holds whitespace (the cases where Markdown's block structure is at stake); every index is a distinct (placement, string)",
 		Assumptions: []string{
 			"reference converter: goldmark v1.7.16, CommonMark defaults, html.WithUnsafe so raw HTML is visible; its HTML is tokenised with x/net/html",
